@@ -139,8 +139,13 @@ func (e *Exec) execSend(s *State, f *Frame, in *ssa.Send) stepResult {
 		panic(goPanic{"send on closed channel"})
 	}
 	v := e.get(s, f, in.X)
+	waiter, _ := e.findBlockedReceiver(s, id)
 	if e.trySend(s, ch, id, v) {
 		f.ip++
+		if e.explore && waiter != nil {
+			// a receiver became runnable: a visible scheduling point
+			return stepResult{kind: kBlock}
+		}
 		return stepResult{kind: kCont}
 	}
 	return e.block(s)
